@@ -1,6 +1,7 @@
 """C03 — range tests flag by inclusive interval membership, fail before suspect."""
 import adapters
 import fns
+from core import fr as core_fr
 
 PID = "C03"
 MODEL_TARGETS = ["Range"]
@@ -15,11 +16,32 @@ def run(ctx):
     rng, tier = ctx["rng"], ctx["tier"]
     r1 = adapters.run_adapter(fns.GrossRange(), fns.gen_gross(tier, rng), rng)
     r2 = adapters.run_adapter(fns.ValidRange(), fns.gen_valid(tier, rng), rng)
+    # whole-number data given integer-typed (int list / int32 / int64) or in single precision, against limits that are
+    # NOT whole numbers (k + 1/2) or lie 2^-30 inside a whole number: the limits must keep their own precision
+    import crosscut as cc
+    from fractions import Fraction as F
+    extra_fail, extra_n = [], 0
+    data = [F(v) for v in (-50, 0, 1, 2, 5, 8, 9, 10, 50)]
+    for lo, hi in ((F(1, 2), F(19, 2)), (F(3, 2), None), (None, F(15, 2)), (F(2) + F(1, 2 ** 30), F(8) - F(1, 2 ** 30)),
+                   (F(0) - F(1, 2 ** 30), F(10) + F(1, 2 ** 30))):
+        for si, ei in ((None, None), (True, False), (False, True)):
+            c = {"kind": "float", "xs": fns.frs(data), "lo": core_fr(lo), "hi": core_fr(hi), "si": si, "ei": ei}
+            n, f = cc.integer_series_failures("valid_range_test", fns.ValidRange(), c, also=("float32",))
+            extra_n += n
+            extra_fail += f
+        g = {"xs": fns.frs(data), "fail": [core_fr(lo if lo is not None else F(-100)), core_fr(hi if hi is not None else F(100))],
+             "suspect": None}
+        n, f = cc.integer_series_failures("gross_range_test", fns.GrossRange(), g, also=("float32",))
+        extra_n += n
+        extra_fail += f
+    r2["failures"] += extra_fail
+    r2["evaluations"] += extra_n
     return adapters.merge(
         [r1, r2],
         rule="per (fail span, suspect span | valid span x inclusivity): every alphabet value {bound, bound±1/64, far, "
              "missing} alone, all series of length<=3(4) over a 4-symbol sub-alphabet, random series up to length 30; "
-             "spans nested/touching/equal/degenerate/reversed/not-contained/wrong arity; float and datetime64 inputs. "
+             "spans nested/touching/equal/degenerate/reversed/not-contained/wrong arity; float and datetime64 inputs; whole-number data given as int list / int32 / int64 / float32 against limits "
+             "k+1/2 and k±2^-30. "
              "non-trivial = result has >=2 distinct flags or raises",
     )
 
